@@ -272,15 +272,25 @@ def loop_range(ctx, eng, func, head):
             continue
         if d['k'] == 'aggregate' and d.get('adt', '').startswith('std::ops::Range'):
             lo, hi = d['ops'][0], d['ops'][1]
-            def desc(o):
+            def desc(o, depth=0):
                 if o['k'] == 'const':
                     return str(o['value'])
                 pl = o['place']
-                dd = def_of(pl['local']) if not pl['proj'] else None
-                if dd and not isinstance(dd, tuple) and dd['k'] == 'use' and dd['op']['k'] in ('copy', 'move'):
-                    pl = dd['op']['place']
                 names = [e['name'] for e in pl['proj'] if e['k'] == 'field']
-                return '.'.join(names) if names else '_%d' % pl['local']
+                if pl['local'] == 1 and body.kind == 'closure' and names and names[0].isdigit():
+                    up = body.j.get('upvars', [])
+                    i = int(names[0])
+                    if i < len(up):
+                        return up[i]['name'].replace('*', '').replace('(', '').replace(')', '').replace('self.', '')
+                if names:
+                    return '.'.join(names)
+                dd = def_of(pl['local'])
+                if depth < 5 and dd and not isinstance(dd, tuple):
+                    if dd['k'] == 'use' and dd['op']['k'] in ('copy', 'move', 'const'):
+                        return desc(dd['op'], depth + 1)
+                    if dd['k'] == 'ref':
+                        return desc({'k': 'copy', 'place': dd['place']}, depth + 1)
+                return '_%d' % pl['local']
             return (desc(lo), desc(hi))
         return None
     return None
